@@ -18,17 +18,30 @@ PROPERTY = "C19"
 PART_NAMES = ["pack", "affine", "stride", "transform", "attrs"]
 MODEL_TARGETS = ["Model/C19Pack.vo", "Model/PyLib.vo", "Model/XdslAffine.vo", "Gen/CanonAffine.vo",
                  "Model/C19Stride.vo", "Gen/StrideCanon.vo", "Model/C19Transform.vo"]
-RULE = ("pack: 0-9 (value, offset) pairs, each a Python int (edge values of the width, negative, out of range) or "
-        "one of 4 pre-existing SSA values/ops with arbitrary run-time contents, dtype in {8,16,32,64}, length "
-        "mismatches; non-trivial = at least two fields")
+RULE = ("pack: 0-9 (value, offset) pairs, each a Python int (edge values of the width, negative, out of range) or one of 4 "
+        "pre-existing SSA values/ops with arbitrary run-time contents, dtype in {8,16,32,64}, length mismatches; non-trivial = "
+        ">= 2 fields. affine: random trees of depth <= 4 over d0-d2, s0, constants {0,+-1,2,3,4,5,8,16,-2,-3} and "
+        "+,*,floordiv,mod(,ceildiv), raw (arbitrary AffineBinaryOpExpr shapes) and affine-shaped, operands swapped at random; "
+        "non-trivial = canonicalisation changes the tree; evaluation on the box [-2,3]^3 x {0,3} and random points in +-1000. "
+        "stride: rank 0-6, bounds {0,1,2,3,4,5,8} (negative for L1), strides continuing the previous (kept) dimension, zero, "
+        "negative or random, spatial strides incl. 0; non-trivial = >= 2 non-unit bounds. transform: maps with 0-4 dims / 0-3 "
+        "results (pure affine incl. nested constant products, non-linear, div/mod, symbols, out-of-range dims), matrices over "
+        "{0,+-1,2,3,8,-4,16} incl. empty shapes, shape mismatches, access bounds {None,0,1,2,3,4,8}. attrs: 1-5 streamers, "
+        "0-6 temporal flags, 0-3 spatial dims, option subsets in any order, xDMA system type")
 TRUSTED_BASE = [
     "Coq 8.16.1 kernel + vm_compute (no native_compute)",
-    "hand model coq/Model/C19Pack.v of snaxc/util/pack_bitlist.py, tied by L1 (exact op-list comparison + DAG value)",
-    "harness/props/c19*.py generators, xDSL-op -> abstract-op converter and the Python interpreter of arith ops used by L2",
-    "xDSL 0.70 (arith ops, IntegerAttr normalisation), harness/xdsl_compat.py",
+    "translator/py2coq.py + translator/specs/{canonicalize_affine,stride_pattern}.py (meaning of the Python subset; views of xDSL classes)",
+    "hand models coq/Model/XdslAffine.v (xDSL 0.70 AffineExpr smart constructors; L1 each run), C19Pack.v, C19Transform.v, C19Stride.v (pattern semantics), PyLib.v",
+    "harness/props/c19*.py generators, xDSL/numpy -> Coq literal converters, the Python interpreter of arith ops and the address enumerator used by L2",
+    "xDSL 0.70 (AffineExpr, AffineMap.eval, arith ops, IntegerAttr normalisation, Parser/Printer), numpy, harness/xdsl_compat.py",
 ]
 ASSUMPTIONS = [
+    "theorems about canonicalize_expr are partial-correctness statements (result = Some r): termination is not proved; an AssertionError is finding F22",
+    "eval totalises x // 0 and x % 0 (Z.div/Z.modulo by 0); dims/symbols are total functions of the position",
+    "stride patterns: upper bounds >= 0 (refuted for two negative bounds, Example in Props/C19.v); index 0 is the innermost loop",
+    "from_affine_map/to_affine_map round trip: results are pure affine (is_affine); refuted for a raw product of two dimensions",
     "arith.shli is modelled as shift in Z followed by truncation to w bits (a shift amount >= w gives 0; MLIR: poison)",
+    "print/parse of StridePattern / StreamerConfigurationAttr is checked on the implementation (L2), not modelled in Coq",
 ]
 ALLOWED_AXIOMS: list[str] = []
 
